@@ -202,9 +202,25 @@ fn case_run(src: &mut Src, st: &mut Stats, _env: &Env) -> CaseResult {
         return Err(Failure::new("runs", "jp-panicked", stderr_text, case));
     }
     // what the library says
+    // (several byte strings are acceptable where the statement does not fix the layout: the
+    // indentation unit of the pretty-printed JSON, the pretty or plain form of the tree)
     enum Want {
-        Out(Vec<u8>),
+        Out(Vec<Vec<u8>>),
         Fail(&'static str),
+    }
+    fn pretty_forms(v: &jmespath::Variable) -> Vec<Vec<u8>> {
+        use serde::Serialize;
+        ["  ", "    ", " ", "   ", "\t", "        "]
+            .iter()
+            .map(|indent| {
+                let mut out = Vec::new();
+                let fmt = serde_json::ser::PrettyFormatter::with_indent(indent.as_bytes());
+                let mut ser = serde_json::Serializer::with_formatter(&mut out, fmt);
+                v.serialize(&mut ser).expect("serialise");
+                out.push(b'\n');
+                out
+            })
+            .collect()
     }
     let want = if missing_expr_file {
         Want::Fail("missing expression file")
@@ -213,7 +229,7 @@ fn case_run(src: &mut Src, st: &mut Stats, _env: &Env) -> CaseResult {
             Err(_) => Want::Fail("expression does not compile"),
             Ok(c) => {
                 if ast {
-                    Want::Out(format!("{:#?}\n", c.as_ast()).into_bytes())
+                    Want::Out(vec![format!("{:#?}\n", c.as_ast()).into_bytes(), format!("{:?}\n", c.as_ast()).into_bytes()])
                 } else if missing_input_file {
                     Want::Fail("missing input file")
                 } else {
@@ -223,9 +239,9 @@ fn case_run(src: &mut Src, st: &mut Stats, _env: &Env) -> CaseResult {
                             Err(_) => Want::Fail("search fails"),
                             Ok(r) => {
                                 if unquoted && r.is_string() {
-                                    Want::Out(format!("{}\n", r.as_string().unwrap()).into_bytes())
+                                    Want::Out(vec![format!("{}\n", r.as_string().unwrap()).into_bytes()])
                                 } else {
-                                    Want::Out(format!("{}\n", serde_json::to_string_pretty(&*r).unwrap()).into_bytes())
+                                    Want::Out(pretty_forms(&r))
                                 }
                             }
                         },
@@ -235,11 +251,12 @@ fn case_run(src: &mut Src, st: &mut Stats, _env: &Env) -> CaseResult {
         }
     };
     match want {
-        Want::Out(bytes) => {
+        Want::Out(forms) => {
             if run.code != Some(0) {
                 return Err(Failure::new("runs", "jp-fails-where-library-succeeds", format!("exit {:?}, stderr {}", run.code, stderr_text), case));
             }
-            if run.stdout != bytes {
+            let bytes = forms[0].clone();
+            if !forms.iter().any(|f| f == &run.stdout) {
                 return Err(Failure::new("runs", "jp-output-differs-from-library", format!("expected {:?}", String::from_utf8_lossy(&bytes)), case));
             }
             st.class(if ast { "ok:ast" } else if unquoted { "ok:unquoted" } else { "ok:plain" });
